@@ -117,6 +117,22 @@ func (s *Solver) procFor(useStr bool) *proc {
 // check returns "sat", "unsat" or "unknown"; with wantModel and sat it also returns the values of all
 // free symbols of the query plus the extra terms.
 func (s *Solver) check(asserts []*Term, wantModel bool, extra []*Term) (string, map[string]string) {
+	t0 := time.Now()
+	res, m, p := s.checkOnce(asserts, wantModel, extra)
+	// z3 degrades on some String queries inside a long push/pop session (same query: 20 ms fresh, 20 s in-session):
+	// a slow or undecided answer is retried once on a fresh process.
+	if p != nil && (res == "unknown" || time.Since(t0) > 1500*time.Millisecond) && p.n > 1 {
+		p.restart()
+		statRestarts.Add(1)
+		if res == "unknown" {
+			statUnknown.Add(-1)
+			res, m, _ = s.checkOnce(asserts, wantModel, extra)
+		}
+	}
+	return res, m
+}
+
+func (s *Solver) checkOnce(asserts []*Term, wantModel bool, extra []*Term) (string, map[string]string, *proc) {
 	all := asserts
 	if len(extra) > 0 {
 		all = append(append([]*Term{}, asserts...), extra...)
@@ -131,7 +147,7 @@ func (s *Solver) check(asserts []*Term, wantModel bool, extra []*Term) (string, 
 	if !wantModel {
 		if r, ok := s.cache[key]; ok {
 			statCacheHits.Add(1)
-			return r, nil
+			return r, nil, nil
 		}
 	}
 	p := s.procFor(useStr)
@@ -144,14 +160,14 @@ func (s *Solver) check(asserts []*Term, wantModel bool, extra []*Term) (string, 
 		p.restart()
 		statRestarts.Add(1)
 		statUnknown.Add(1)
-		return "unknown", nil
+		return "unknown", nil, p
 	}
 	line, err := p.out.ReadString('\n')
 	if err != nil {
 		p.restart()
 		statRestarts.Add(1)
 		statUnknown.Add(1)
-		return "unknown", nil
+		return "unknown", nil, p
 	}
 	res := strings.TrimSpace(line)
 	if strings.HasPrefix(res, "(error") || (res != "sat" && res != "unsat" && res != "unknown") {
@@ -162,7 +178,7 @@ func (s *Solver) check(asserts []*Term, wantModel bool, extra []*Term) (string, 
 		}
 		p.restart()
 		statRestarts.Add(1)
-		return "unknown", nil
+		return "unknown", nil, p
 	}
 	var model map[string]string
 	if res == "sat" && wantModel {
@@ -182,7 +198,7 @@ func (s *Solver) check(asserts []*Term, wantModel bool, extra []*Term) (string, 
 				if err != nil {
 					p.restart()
 					statRestarts.Add(1)
-					return "unknown", nil
+					return "unknown", nil, p
 				}
 				if strings.Contains(l, "<<end>>") {
 					break
@@ -216,7 +232,7 @@ func (s *Solver) check(asserts []*Term, wantModel bool, extra []*Term) (string, 
 	if !wantModel && res != "unknown" {
 		s.cache[key] = res
 	}
-	return res, model
+	return res, model, p
 }
 
 // parseGetValue parses "((a v) (b v) ...)" into the list of value texts.
